@@ -2,6 +2,7 @@ package main
 
 import (
 	"fmt"
+	"go/types"
 	"sort"
 	"strconv"
 	"strings"
@@ -271,5 +272,53 @@ func c05Sentences(p *Prog, r *Report) {
 			continue // a delegate or a comment printer
 		}
 		r.Check("R05i", FuncName(f)+" emits whole sentences", f.Pos(), bad == "", bad)
+	}
+}
+
+// c05FlagToChildren (R05a): an emitter may hand its own needs_paren flag to another emitter only when that
+// emitter's text is its whole result (tail delegation: `return x.Coq(needs_paren)`). A child whose text is spliced
+// into a larger form sits in an argument position whatever the context of the parent is, so it must be rendered
+// with the constant true (or be printed by the parent's own layout).
+func c05FlagToChildren(p *Prog, r *Report) {
+	n := 0
+	for _, f := range coqMethods(p) {
+		var flag *ssa.Parameter
+		for _, pa := range f.Params {
+			if b, ok := pa.Type().Underlying().(*types.Basic); ok && b.Kind() == types.Bool {
+				flag = pa
+			}
+		}
+		if flag == nil {
+			continue
+		}
+		p.instrs(f, func(b *ssa.BasicBlock, i int, in ssa.Instruction) {
+			c, ok := in.(*ssa.Call)
+			if !ok || len(c.Call.Args) == 0 || c.Call.Args[len(c.Call.Args)-1] != ssa.Value(flag) {
+				return
+			}
+			isCoq := c.Call.IsInvoke() && c.Call.Method.Name() == "Coq"
+			if cal := calleeOf(&c.Call); cal != nil && cal.Name() == "Coq" {
+				isCoq = true
+			}
+			if !isCoq {
+				return
+			}
+			n++
+			tail := true
+			for _, rf := range refs(c) {
+				switch x := rf.(type) {
+				case *ssa.Return:
+				case *ssa.DebugRef:
+				default:
+					_ = x
+					tail = false
+				}
+			}
+			r.Check("R05a", FuncName(f)+" passes its needs_paren only in tail position", instrPos(c), tail,
+				"the emitter's own needs_paren flag is handed to a child whose text is spliced into a larger form: printed at top level the child loses the parentheses its argument position needs")
+		})
+	}
+	if n == 0 {
+		r.Note("R05a: no emitter hands its needs_paren flag to another emitter")
 	}
 }
